@@ -140,7 +140,7 @@ func (f *fnTrans) applyCall(ins ssa.Instruction, name string, ct *Contract, sig 
 	hasRecv := sig.Recv() != nil || isInvoke
 	if ct != nil {
 		cases = append(cases, &callCase{guard: True, ct: ct, sig: sig, names: f.bindNames(sig, hasRecv, args, argT), name: name,
-			reqs: ct.Requires, ens: ct.Ensures, mods: ct.Modifies, hasMod: ct.HasMod && !isInvoke})
+			reqs: ct.Requires, ens: ct.Ensures, mods: ct.Modifies, hasMod: ct.HasMod && (!isInvoke || len(impls) == 0)})
 	}
 	if isInvoke && len(args) > 0 {
 		recv := args[0]
